@@ -5,15 +5,17 @@ Plain Python in the engine's subset: the engine *interprets* this source symboli
 uses share one text."""
 import math
 
-from pyvc.rt import implies, forall, exists, approx, close, eq, ite
+from pyvc.rt import implies, forall, exists, approx, close, eq, ite, opaque
 
 
+@opaque
 def parabola_through(x1, y1, x2, y2, x3, y3, a, b, c):
     """a*x^2 + b*x + c passes through the three points"""
     return (eq(a * x1 * x1 + b * x1 + c, y1) and eq(a * x2 * x2 + b * x2 + c, y2)
             and eq(a * x3 * x3 + b * x3 + c, y3))
 
 
+@opaque
 def line_through(x1, y1, x2, y2, b, c):
     return eq(b * x1 + c, y1) and eq(b * x2 + c, y2)
 
